@@ -103,10 +103,20 @@ fn scenario(root: &Path, folder: &str, kind: usize) -> Result<(), String> {
         // files that are NOT sources: another extension (with a literal inside) and binary content
         14 => { let f = dir.join("notes.md"); write(&f, &component("Notes", "world")); ("create a non-source file (notes.md) that contains a literal", cat(vec![("create_file", vec![f])])) }
         15 => { let f = dir.join("blob.bin"); fs::create_dir_all(&dir).unwrap(); fs::write(&f, [0xffu8, 0xfe, 0x00, 0x80]).unwrap(); ("create a binary (non-UTF-8) file blob.bin", cat(vec![("create_file", vec![f])])) }
+        // a binary file WITH a source extension: neither mode can read it
+        16 => { let f = dir.join("blob.ts"); fs::create_dir_all(&dir).unwrap(); fs::write(&f, [0xffu8, 0xfe, 0x00, 0x80]).unwrap(); ("create a binary (non-UTF-8) file blob.ts", cat(vec![("create_file", vec![f])])) }
         _ => unreachable!(),
     };
     if let Err(es) = update_sources(&mut state.db, &events) {
-        return Err(format!("{what} in folder {folder:?}: update_sources failed (the watcher would stop): {:?}", es.iter().map(|e| e.to_string()).collect::<Vec<_>>()));
+        // watch mode ends with this error; acceptable only if a fresh start cannot read the sources either
+        let fresh_starts = std::panic::catch_unwind(|| { let _ = new_state(root); }).is_ok();
+        if fresh_starts {
+            return Err(format!("{what} in folder {folder:?}: update_sources failed (the watcher would stop) although a fresh start reads the sources: {:?}", es.iter().map(|e| e.to_string()).collect::<Vec<_>>()));
+        }
+        return Ok(());
+    }
+    if std::panic::catch_unwind(|| { let _ = new_state(root); }).is_err() {
+        return Err(format!("{what} in folder {folder:?}: a fresh start cannot read the sources, but watch mode carried on without an error"));
     }
     let watch = outcome(root, &mut state);
     fs::remove_dir_all(root.join("out")).unwrap();
@@ -128,11 +138,12 @@ fn scenario(root: &Path, folder: &str, kind: usize) -> Result<(), String> {
 }
 
 fn main() {
+    std::panic::set_hook(Box::new(|_| {}));
     let root = PathBuf::from(std::env::args().nth(1).unwrap_or("p_watch_events".into()));
     let root = if root.is_absolute() { root } else { std::env::current_dir().unwrap().join(root) };
     let mut n = 0;
     for folder in ["pages_old", "pages.old", "api.v2", "a"] {
-        for kind in 0..16 {
+        for kind in 0..17 {
             n += 1;
             if let Err(m) = scenario(&root, folder, kind) {
                 println!("DIFFERENT: {m}");
